@@ -36,7 +36,16 @@ def strip_order_keeping(it):
     return it, enum
 
 
+def _non_none(e):
+    """`a if t else None` used as a receiver or as the container of an `in` test can only be `a` there"""
+    while isinstance(e, ast.IfExp) and isinstance(e.orelse, ast.Constant) and e.orelse.value is None:
+        e = e.body
+    return e
+
+
 def _is_location(v):
+    if isinstance(v, ast.IfExp) and isinstance(v.orelse, ast.Constant) and v.orelse.value is None:
+        return _is_location(v.body)          # getattr(x, "a", None): the location x.a, or nothing
     while isinstance(v, (ast.Attribute, ast.Subscript)):
         if isinstance(v, ast.Subscript) and not isinstance(v.slice, (ast.Name, ast.Constant, ast.Attribute)):
             return False
@@ -154,6 +163,10 @@ class Expander(object):
                 setattr(e, field, self._x(val, node, depth, busy))
             elif isinstance(val, list):
                 setattr(e, field, [self._x(v, node, depth, busy) if isinstance(v, ast.AST) else v for v in val])
+        if isinstance(e, ast.Attribute):
+            e.value = _non_none(e.value)
+        elif isinstance(e, ast.Compare) and all(isinstance(o, (ast.In, ast.NotIn)) for o in e.ops):
+            e.comparators = [_non_none(c) for c in e.comparators]
         return e
 
     def _name(self, e, node, depth, busy):
@@ -463,6 +476,11 @@ def canon_expr(prog, f, e):
         def visit_Subscript(self, n):
             n = self.generic_visit(n)
             v = n.value
+            # x.split(sep)[0] is x.partition(sep)[0]
+            if isinstance(v, ast.Call) and isinstance(v.func, ast.Attribute) and v.func.attr == "split" and len(v.args) == 1 \
+                    and isinstance(v.args[0], ast.Constant) and isinstance(n.slice, ast.Constant) and n.slice.value == 0 and not v.keywords:
+                part = ast.Call(func=ast.Attribute(value=v.func.value, attr="partition", ctx=ast.Load()), args=v.args, keywords=[])
+                return ast.copy_location(ast.Subscript(value=part, slice=ast.Constant(value=0), ctx=ast.Load()), n)
             if isinstance(v, ast.Call) and ast.unparse(v.func) == "os.path.split" and len(v.args) == 1 and isinstance(n.slice, ast.Constant) \
                     and n.slice.value in (0, 1):
                 fn = "os.path.dirname" if n.slice.value == 0 else "os.path.basename"
@@ -487,6 +505,16 @@ def canon_expr(prog, f, e):
             return self.generic_visit(n)
 
         def visit_Call(self, n):
+            # sep.join(x.split(sep)[1:]) is x.partition(sep)[2]
+            if isinstance(n.func, ast.Attribute) and n.func.attr == "join" and isinstance(n.func.value, ast.Constant) and len(n.args) == 1 \
+                    and isinstance(n.args[0], ast.Subscript) and isinstance(n.args[0].slice, ast.Slice) \
+                    and isinstance(n.args[0].slice.lower, ast.Constant) and n.args[0].slice.lower.value == 1 \
+                    and n.args[0].slice.upper is None and n.args[0].slice.step is None:
+                sp = n.args[0].value
+                if isinstance(sp, ast.Call) and isinstance(sp.func, ast.Attribute) and sp.func.attr == "split" and len(sp.args) == 1 \
+                        and isinstance(sp.args[0], ast.Constant) and sp.args[0].value == n.func.value.value and not sp.keywords:
+                    part = ast.Call(func=ast.Attribute(value=self.visit(sp.func.value), attr="partition", ctx=ast.Load()), args=sp.args, keywords=[])
+                    return ast.copy_location(ast.Subscript(value=part, slice=ast.Constant(value=2), ctx=ast.Load()), n)
             if isinstance(n.func, ast.Attribute) and n.func.attr == "format" and isinstance(n.func.value, ast.Constant):
                 t = self._template(n)
                 if t is not None:
